@@ -37,6 +37,8 @@ Cat == Catalogue(FMAXT) \o <<
   \* which box (3,3,5,5) and point (4,4) lie without touching anything
   G("MultiPoint", [k \in 1..24 |-> CASE k <= 6 -> <<k, 1>> [] k <= 12 -> <<7, k - 6>> [] k <= 18 -> <<20 - k, 7>> [] OTHER -> <<1, 26 - k>>]),
   G("Point", <<4, 4>>),
+  G("Polygon", <<<<<<1, 1>>, <<2, 3>>, <<4, 2>>>>>>),              \* a ring written unclosed whose LAST vertex is the latest in time
+  G("Polygon", <<<<<<3, 3>>, <<5, 1>>, <<1, 2>>>>>>),              \* ... and one whose last vertex is the earliest
   G("BoundingBox", <<3, 3, 5, 5>>),                              \* apart from box (0,0,2,2) on BOTH axes (a diagonal neighbour)
   G("BoundingBox", <<1, 2, 4, 2>>),                              \* a flat box (low = high): zero area, positive duration
   G("TimeInterval", <<6, 6>>),                                   \* a second zero-length interval, at another instant than <<3, 3>>
@@ -191,5 +193,10 @@ ASSUME RingPresent == \E i, j, k \in 1..Len(Cat) :
 LawSeparateSym == Separate(g1, g2, c.tb, c.fb) = Separate(g2, g1, c.tb, c.fb)
 \* the iso catalogue has two kinds with one coordinate list
 ASSUME IsoTwinsPresent == \E i, j \in 1..Len(IsoCat) : IsoCat[i].type = "TimeInterval" /\ IsoCat[j].type = "Point" /\ IsoCat[i].coordinates = IsoCat[j].coordinates
+\* some catalogue pair overlaps ONLY through the buffer (the raw point lies outside the box)
+ASSUME BufferOnlyOverlapPresent == \E i, j \in 1..Len(Cat) :
+    /\ Cat[i].type = "Point" /\ Cat[j].type = "BoundingBox" /\ Overlapping(Cat[i], Cat[j], 2, 1)
+    /\ Gap1(Cat[j].coordinates[1], Cat[j].coordinates[3], Cat[i].coordinates[1]) > 0
+LawOverlapNotSeparate == ~(Overlapping(g1, g2, c.tb, c.fb) /\ Separate(g1, g2, c.tb, c.fb))
 ExtentsInRange == \A r \in Readings, d \in Ds : TIoU(g1, g2, d, r)[2] <= 32767
 =============================================================================
